@@ -62,8 +62,11 @@ fn gen_reqs(r: &mut Rng) -> Vec<String> {
     let fac = |r: &mut Rng| -> u128 { match r.below(6) { 0 => 0, 1 => r.range(1, 20) as u128, 2 => unit / 1_000_000_000 * r.range(1, 9000) as u128 + r.below(3) as u128, 3 => unit / 100_000 * r.range(1, 100) as u128, 4 => unit / 100 * r.range(1, 100) as u128, _ => unit } };
     let (fp, fneg) = (fac(r), fac(r));
     // values in USD with `unit` decimals: around the interesting points 0, <1, 1, >1 USD and large
-    let scale = if w == 64 { *r.pick(&[1u128, 1_000, 1_000_000, 1_000_000_000, 3_000_000_000]) } else { *r.pick(&[1u128, 1_000_000_000, unit / 10, unit, unit * 1000, unit * 1_000_000]) };
-    let val = |r: &mut Rng| -> u128 { match r.below(8) { 0 => 0, 1 => scale, 2 => scale + r.below(3) as u128, _ => scale / 7 * r.range(0, 70) as u128 + r.below(5) as u128 } };
+    // USD values with `unit` decimals: mostly between 1 and 10^4 (64-bit) / 10^7 (128-bit) USD so that
+    // the impact curve is non-zero; a few below one unit (curve = 0) and at the unit itself
+    let scale = if w == 64 { *r.pick(&[1u128, 1_000_000_000, 1_000_000_000, 30_000_000_000, 1_000_000_000_000, 9_000_000_000_000]) }
+                else { *r.pick(&[1u128, unit / 10, unit, unit, unit * 1000, unit * 1_000_000, unit * 10_000_000]) };
+    let val = |r: &mut Rng| -> u128 { match r.below(10) { 0 => 0, 1 => scale, 2 => scale + r.below(3) as u128, _ => scale / 7 * r.range(1, 70) as u128 + r.below(5) as u128 } };
     let (pl, ps) = (val(r), val(r));
     // delta: small nudges, cross-over sized, exact cancel
     let dl: i128 = match r.below(6) { 0 => 0, 1 => -(pl as i128), 2 => (ps as i128) - (pl as i128) + r.range(0, 4) as i128 - 2, 3 => -((pl / 3) as i128), _ => (val(r) as i128) / 2 };
